@@ -152,6 +152,33 @@ def _judge(sc):
             if not isinstance(got, dict) or sorted(got) != sorted(names4.values()) or \
                     any(not np.allclose(got[names4[i]], ref[i], atol=1e-12) for i in names4):
                 return _viol("return_states:iterable-form", "return_states given as %s does not return the named nodes' states" % type(form).__name__, sc)
+    # a PROPER SUBSET of the nodes requested by name: the named states are returned, and every node of the model has still been
+    # evaluated at every step (its state afterwards, and whatever a later run returns, are those of the complete evaluation)
+    if len(names) >= 2:
+        b5, b6 = scen.Built(sc), scen.Built(sc)
+        m5, m6 = b5.models[0], b6.models[0]
+        ids = [nd["id"] for nd in sc["nodes"]]
+        sub = sorted(rng.sample(ids, rng.randint(1, len(ids) - 1)))
+        arg5 = {b5.nodes[e].name: X[e] for e in entries} if use_map else X[entries[0]]
+        arg6 = {b6.nodes[e].name: X[e] for e in entries} if use_map else X[entries[0]]
+        try:
+            got = m5.run(arg5, return_states=[b5.nodes[i].name for i in sub])
+            allr = m6.run(arg6, return_states="all")
+            if not isinstance(got, dict) or sorted(got) != sorted(b5.nodes[i].name for i in sub) or \
+                    any(not np.allclose(got[b5.nodes[i].name], allr[b6.nodes[i].name], atol=1e-12) for i in sub):
+                return _viol("return_states:subset:wrong-values", "return_states=<some node names> does not return those nodes' states", sc)
+            for i in ids:
+                s5, s6 = b5.nodes[i].state(), b6.nodes[i].state()
+                if (s5 is None) != (s6 is None) or (s5 is not None and not np.allclose(s5, s6, atol=1e-12)):
+                    return _viol("return_states:subset:node-not-evaluated", "after run(return_states=%s) node %d does not hold the state the complete "
+                                 "evaluation gives it" % (sub, i), sc, None if s6 is None else np.asarray(s6).tolist(), None if s5 is None else np.asarray(s5).tolist())
+            X2 = {e: scen.fl(scengen.rows(rng, 2, din)) for e in entries}
+            r5 = m5.run({b5.nodes[e].name: X2[e] for e in entries} if use_map else X2[entries[0]], return_states="all")
+            r6 = m6.run({b6.nodes[e].name: X2[e] for e in entries} if use_map else X2[entries[0]], return_states="all")
+            if any(not np.allclose(r5[b5.nodes[i].name], r6[b6.nodes[i].name], atol=1e-12) for i in ids):
+                return _viol("return_states:subset:later-run-differs", "a run that follows run(return_states=%s) differs from the same run after a complete run" % sub, sc)
+        except Exception as e:  # noqa: BLE001
+            return _viol("return_states:subset:exception", "run(return_states=<some node names>) raises %r" % (e,), sc)
     # result form: one output and no return_states -> bare array; otherwise keyed by name
     b3 = scen.Built(sc)
     m3 = b3.models[0]
